@@ -86,7 +86,10 @@ def iters {n} (und : Bool) (maxAtt : Nat) : Nat → AMat Int n → Nat → List 
 /-- `randmio_dir_signed` (`und = false`: `itr *= n(n-1)`, `max_attempts = n`) and
 `randmio_und_signed` (`und = true`: `itr *= int(n(n-1)/2)`, `max_attempts = int(round(n/2))`) -/
 def run {n} (und : Bool) (R : AMat Int n) (itr : Nat) (ds : List Nat) : Except Err (AMat Int n × Nat × List Nat) :=
-  if und then iters true (roundHalfEven n 2) (itr * (n * (n - 1) / 2)) R 0 ds
+  -- fewer than four nodes: no four distinct nodes exist, nothing can be rewired (`if n < 4: return R, 0`; without this
+  -- guard `pick_four_unique_nodes_quickly` recurses until RecursionError — former finding C06-small-n-recursion)
+  if n < 4 then .ok (R, 0, ds)
+  else if und then iters true (roundHalfEven n 2) (itr * (n * (n - 1) / 2)) R 0 ds
   else iters false n (itr * (n * (n - 1))) R 0 ds
 
 /-! ### the dealing stage of the null models -/
@@ -254,6 +257,23 @@ def corrLine {n} (W W0 : AMat Int n) : String :=
   let c := corrTriples W W0
   s!"rpi={showTriple c.rpi} rpo={showTriple c.rpo} rni={showTriple c.rni} rno={showTriple c.rno}"
 
+/-! ### `wei_period = np.round(1 / wei_freq)` in IEEE doubles -/
+
+/-- the double nearest to a/b (a, b > 0; round half to even at 53 significant bits) as an exact fraction -/
+def flDiv (a b : Nat) : Nat × Nat :=
+  let t0 : Int := 52 - (Int.ofNat (Nat.log2 a) - Int.ofNat (Nat.log2 b))
+  let scaled (t : Int) : Nat × Nat := if t ≥ 0 then (a * 2 ^ t.toNat, b) else (a, b * 2 ^ (-t).toNat)
+  let q0 := (scaled t0).1 / (scaled t0).2
+  let t : Int := if q0 < 2 ^ 52 then t0 + 1 else if q0 ≥ 2 ^ 53 then t0 - 1 else t0
+  let s := roundHalfEven (scaled t).1 (scaled t).2
+  if t ≥ 0 then (s, 2 ^ t.toNat) else (s * 2 ^ (-t).toNat, 1)
+
+/-- `np.round(1 / wei_freq).astype(int)` for the double `wei_freq = p/q` (0 encodes `wei_freq == 0`) -/
+def periodOf (p q : Nat) : Nat :=
+  if p = 0 ∨ q = 0 then 0 else
+  let y := flDiv q p
+  roundHalfEven y.1 y.2
+
 /-! ### driver -/
 
 def parseOracle (s : String) : Option (List (List Nat)) :=
@@ -274,7 +294,7 @@ def step (line : String) : String :=
       let period ← (match (← lookup kv "freq").splitOn "/" with
         | [p, q] => do
           let p ← p.toNat?; let q ← q.toNat?
-          if q = 0 then none else if p = 0 then some 0 else if roundHalfEven q p = 0 then none else some (roundHalfEven q p)
+          if q = 0 then none else if p = 0 then some 0 else if periodOf p q = 0 then none else some (periodOf p q)
         | _ => none)
       let orc ← parseOracle (← lookup kv "oracle")
       match nullModel (op == "null_model_und_sign") R itr period orc ds with
